@@ -326,6 +326,11 @@ class GetAttributeListResponsePayload(base.ResponsePayload):
                         "The GetAttributeList response payload encoding "
                         "contains an invalid AttributeReference type."
                     )
+            if len(names) == 0:
+                raise exceptions.InvalidKmipEncoding(
+                    "The GetAttributeList response payload encoding is "
+                    "missing the attribute references."
+                )
             self._attribute_names = names
 
         self.is_oversized(local_buffer)
